@@ -124,7 +124,7 @@ def check(run, F, tier):
                 mech += 1
                 rule.ok(o.key, why)
                 continue
-            le = ledger.get(o.key)
+            le = panics.ledger_match(ledger, o)
             if le is not None:
                 aud += 1
                 used.add(o.key)
@@ -154,10 +154,10 @@ def check(run, F, tier):
             if o.status == "discharged":
                 mech += 1
                 r1.ok(o.key, o.why)
-            elif o.key in ledger:
+            elif panics.ledger_match(ledger, o) is not None:
                 aud += 1
                 used.add(o.key)
-                r1.ok(o.key, "audited: " + ledger[o.key]["reason"])
+                r1.ok(o.key, "audited: " + panics.ledger_match(ledger, o)["reason"])
             else:
                 r1.violation(o.key, "feed: %s %s (%s) at line %s - %s" % (o.kind, o.desc, o.status, o.site[1], o.why), conn.path_summary(o.path),
                              site="%s:%s" % (feed["file"], o.site[1]))
@@ -204,10 +204,10 @@ def check(run, F, tier):
             if o.status == "discharged":
                 mech += 1
                 r1s.ok(o.key, o.why)
-            elif o.key in ledger:
+            elif panics.ledger_match(ledger, o) is not None:
                 aud += 1
                 used.add(o.key)
-                r1s.ok(o.key, "audited: " + ledger[o.key]["reason"])
+                r1s.ok(o.key, "audited: " + panics.ledger_match(ledger, o)["reason"])
             else:
                 r1s.violation(o.key, "%s: %s %s (%s) at line %s - %s" % (panics.short_fn(pth), o.kind, o.desc, o.status, o.site[1], o.why),
                               conn.path_summary(o.path), site="%s:%s" % (g["file"], o.site[1]))
